@@ -484,7 +484,10 @@ impl Circle2 {
             return None;
         }
 
-        let angle = f64::asin(self.ball.radius / d);
+        // The angle at the circle center between the direction to the test point and the direction
+        // to either tangent point: the radius to a tangent point is perpendicular to the tangent
+        // line, so the radius is the adjacent side of a right triangle whose hypotenuse is `d`
+        let angle = f64::acos(self.ball.radius / d);
         let theta = f64::atan2(point.y - self.center.y, point.x - self.center.x);
 
         let p0 = Point2::new(
